@@ -25,6 +25,7 @@ import (
 	"github.com/tikv/client-go/v2/internal/client"
 	"github.com/tikv/client-go/v2/internal/latch"
 	"github.com/tikv/client-go/v2/internal/locate"
+	"github.com/tikv/client-go/v2/kv"
 	"github.com/tikv/client-go/v2/oracle"
 	"github.com/tikv/client-go/v2/tikvrpc"
 	"github.com/tikv/client-go/v2/txnkv/txnlock"
@@ -508,6 +509,30 @@ func (c *zzCluster) pessimisticLock(r *kvrpcpb.PessimisticLockRequest) *kvrpcpb.
 	return resp
 }
 
+// snapshotGet: the newest committed write at or below version; a lock of
+// another transaction at or below version blocks the read, the reader's own
+// lock does not.
+func (c *zzCluster) snapshotGet(key []byte, version uint64) ([]byte, bool, *kvrpcpb.KeyError) {
+	ks := c.key(key)
+	if ks.lock != nil && ks.lock.startTS != version && ks.lock.startTS <= version && ks.lock.op != kvrpcpb.Op_PessimisticLock {
+		return nil, false, zzKeyErrLocked(ks)
+	}
+	var best *zzWrite
+	for i := range ks.writes {
+		w := &ks.writes[i]
+		if w.commitTS == 0 || w.commitTS > version || w.op == kvrpcpb.Op_Lock {
+			continue
+		}
+		if best == nil || w.commitTS > best.commitTS {
+			best = w
+		}
+	}
+	if best == nil || best.op == kvrpcpb.Op_Del {
+		return nil, false, nil
+	}
+	return best.value, true, nil
+}
+
 func (c *zzCluster) commit(r *kvrpcpb.CommitRequest) *kvrpcpb.CommitResponse {
 	resp := &kvrpcpb.CommitResponse{}
 	for _, k := range r.Keys {
@@ -694,6 +719,30 @@ func (c *zzClient) SendRequest(ctx context.Context, addr string, req *tikvrpc.Re
 			}
 		}
 		resp = &tikvrpc.Response{Resp: out}
+	case tikvrpc.CmdGet:
+		r := req.Get()
+		out := &kvrpcpb.GetResponse{}
+		v, found, kerr := cl.snapshotGet(r.Key, r.Version)
+		if kerr != nil {
+			out.Error = kerr
+		} else if found {
+			out.Value = v
+		} else {
+			out.NotFound = true
+		}
+		resp = &tikvrpc.Response{Resp: out}
+	case tikvrpc.CmdBatchGet:
+		r := req.BatchGet()
+		out := &kvrpcpb.BatchGetResponse{}
+		for _, k := range r.Keys {
+			v, found, kerr := cl.snapshotGet(k, r.Version)
+			if kerr != nil {
+				out.Pairs = append(out.Pairs, &kvrpcpb.KvPair{Key: k, Error: kerr})
+			} else if found {
+				out.Pairs = append(out.Pairs, &kvrpcpb.KvPair{Key: k, Value: v})
+			}
+		}
+		resp = &tikvrpc.Response{Resp: out}
 	case tikvrpc.CmdFlush:
 		r := req.Flush()
 		out := &kvrpcpb.FlushResponse{}
@@ -856,6 +905,8 @@ func zzNewStore(splits [][]byte, faults int) (*zzStore, *zzCluster) {
 
 func zzNewStoreTS(splits [][]byte, faults int, symbolicTS bool) (*zzStore, *zzCluster) {
 	locate.SetStoreLivenessTimeout(0)
+	// package-level knobs are process-global in a native replay: set every one a harness relies on
+	kv.TxnCommitBatchSize.Store(kv.DefTxnCommitBatchSize)
 	zzConcreteRand()
 	// one batch at a time: request order is then the same under the engine and in
 	// a native replay (interleavings of batches are not the subject of these checks)
